@@ -156,7 +156,7 @@ def decPan (s : String) : PanOs.Config :=
   if s == "nil" then { devices := none }
   else { devices := some ((listOf RS s).map fun d =>
     match splitOnC GS d with
-    | name :: vs => { name := name.toList, vsys := vs.filterMap fun v =>
+    | name :: vs => { name := (name.drop 1).toString.toList, vsys := vs.filterMap fun v =>
         match splitOnC '=' v with
         | [n, r] => some { name := n.toList, nRules := r.toNat! }
         | _ => none }
